@@ -1310,6 +1310,89 @@ def _explicit_visit_dispatch(trees: Dict[str, ast.Module]) -> int:
     return n_done
 
 
+def _pure_literal(e: ast.AST) -> bool:
+    if isinstance(e, (ast.Constant, ast.Name)):
+        return True
+    if isinstance(e, ast.Attribute):
+        return _pure_literal(e.value)
+    if isinstance(e, (ast.Tuple, ast.List)):
+        return all(_pure_literal(x) for x in e.elts)
+    return False
+
+
+class _FoldLiteralIndex(ast.NodeTransformer):
+    """(a, b, c)[1] is b - for a literal of plain expressions and a constant index in range"""
+
+    def visit_Subscript(self, node: ast.Subscript):
+        self.generic_visit(node)
+        if isinstance(node.ctx, ast.Load) and isinstance(node.value, (ast.Tuple, ast.List)) and isinstance(node.slice, ast.Constant) and type(node.slice.value) is int and _pure_literal(node.value) and -len(node.value.elts) <= node.slice.value < len(node.value.elts):
+            return node.value.elts[node.slice.value]
+        return node
+
+
+def _fold_module_tables(trees: Dict[str, ast.Module]) -> int:
+    """TABLE = {K(x): V(x) for x in (e1, e2, ..)} at module level, the elements plain expressions or tuples of them: the
+    dictionary written out, {K(e1): V(e1), ..} - a table filled by a comprehension over a literal is a literal"""
+    import copy as _copy
+
+    recs = _record_classes(trees)
+
+    def _rec_call(e):
+        return isinstance(e, ast.Call) and isinstance(e.func, ast.Name) and e.func.id in recs and not e.keywords and len(e.args) == len(recs[e.func.id]) and all(_pure_literal(a) for a in e.args)
+
+    class _FoldRecordField(ast.NodeTransformer):
+        """C(a, b, c).second is b - for a private NamedTuple record built in place from plain expressions"""
+
+        def visit_Attribute(self, node: ast.Attribute):
+            self.generic_visit(node)
+            if isinstance(node.ctx, ast.Load) and _rec_call(node.value):
+                names = [f for f, _d in recs[node.value.func.id]]
+                if node.attr in names:
+                    return node.value.args[names.index(node.attr)]
+            return node
+
+    n = 0
+    for t in trees.values():
+        for st in t.body:
+            v = st.value if isinstance(st, (ast.Assign, ast.AnnAssign)) else None
+            if not isinstance(v, (ast.DictComp, ast.ListComp)) or len(v.generators) != 1:
+                continue
+            g = v.generators[0]
+            if g.ifs or g.is_async or not isinstance(g.target, ast.Name) or not isinstance(g.iter, (ast.Tuple, ast.List)) or not all(_pure_literal(e) or _rec_call(e) for e in g.iter.elts):
+                continue
+            x = g.target.id
+
+            class _S(ast.NodeTransformer):
+                def __init__(self, e):
+                    self.e = e
+
+                def visit_Name(self, node):
+                    if node.id == x and isinstance(node.ctx, ast.Load):
+                        return _copy.deepcopy(self.e)
+                    return node
+
+            def inst(expr, e):
+                r = _FoldLiteralIndex().visit(_FoldRecordField().visit(_S(e).visit(_copy.deepcopy(expr))))
+                return r
+
+            if isinstance(v, ast.DictComp):
+                keys = [inst(v.key, e) for e in g.iter.elts]
+                vals = [inst(v.value, e) for e in g.iter.elts]
+                if not all(_pure_literal(k) for k in keys) or not all(_pure_literal(z) or _rec_call(z) for z in vals):
+                    continue
+                new = ast.Dict(keys=keys, values=vals)
+            else:
+                elts = [inst(v.elt, e) for e in g.iter.elts]
+                if not all(_pure_literal(z) or _rec_call(z) for z in elts):
+                    continue
+                new = ast.List(elts=elts, ctx=ast.Load())
+            ast.copy_location(new, v)
+            st.value = new
+            ast.fix_missing_locations(t)
+            n += 1
+    return n
+
+
 class _SplitIfExpReturn(ast.NodeTransformer):
     """return a if c else b   is   if c: return a / else: return b  - one spelling of a decision for the rules"""
 
@@ -1387,6 +1470,7 @@ def canonicalise(trees: Dict[str, ast.Module]) -> Dict[str, str]:
             for fn in [x for x in ast.walk(t) if isinstance(x, (ast.FunctionDef, ast.AsyncFunctionDef))]:
                 _HoistWalrus().generic_visit(fn)
             ast.fix_missing_locations(t)
+    _fold_module_tables(trees)
     _records_to_tuples(trees)
     for t in trees.values():
         gens = {k: v for k, v in _cm_generators(t).items() if k.startswith("_")}
